@@ -18,7 +18,7 @@ EXPLANATION = (
     'wait, join, sleep, future wait, spin lock) or a call on the exporter. C01.R3 (typestate on the per-slot consume '
     'callback): every path takes ownership of the slot exactly once (Swap/Reset), every return is the constant true, and '
     'the taken pointer is appended to the very container whose data()/size() are handed to the exporter\'s Export. '
-    'the container is re-created or cleared between an Export and the next Consume. The queue rules C11.R1/R2 are evaluated as prerequisites. C01.R4 (dependence): the count handed to Consume originates only from size() of the same queue or from the batch bound.')
+    'the container is re-created or cleared between an Export and the next Consume. The queue rules C11.R1/R2/R5 (ownership, guard agreement, FIFO geometry of the consumed range) are evaluated as prerequisites. C01.R4 (dependence): the count handed to Consume originates only from size() of the same queue or from the batch bound.')
 EXPLANATION += ' C01.R5 (dependence): in every constructor the queue member is created with a capacity that derives from the configured max_queue_size option. Obligations about the exported view, the batch bound and the queue are followed through private and file-local helpers (bounded inlining, parameters bound to arguments).'
 NOT_DECIDED = ('that no element is duplicated or lost under concurrent interleavings of the atomic steps, per-producer order, '
                'and the legitimacy of every drop (these are schedule-quantified; C11 decides the structural part of the queue).')
@@ -352,4 +352,6 @@ def run(ck, prog):
     c11.rule_r1_swapifnull(ck, prog)
     c11.rule_r1_single_exchange(ck, prog)
     c11.rule_r1_rvalue(ck, prog, CB)
+    ck.doc('C11.R5', '(prerequisite, see C11) queue geometry: the consumed range is the queued slots in FIFO order (per-producer order)', 3)
+    c11.rule_r5(ck, prog, CB)
     return {}
